@@ -271,7 +271,7 @@ def run(ck):
     reqs, pending = [], []
     keep = []
     for case in cases:
-        keep.append(run_one(ck, case, reqs, pending))
+        keep.append(ck.guard(case, run_one, ck, case, reqs, pending))
     resps = ck.driver(reqs)
     for (case, after, err, narr), resp in zip(pending, resps):
         compare(ck, case, after, err, narr, resp)
